@@ -1354,6 +1354,14 @@ func main() {
 	writeIfChanged(filepath.Join(*out, "GenLockSites.v"), w.Bytes())
 	fmt.Printf("go2v: GenLockSites.v %d access sites of %d protected fields, %d lock wrappers\n", nls, len(lkFields), nlw)
 
+	// GenFrameUse.v (C12): uses of a frame relative to its hand-over, per function (frameuse.go)
+	w.Reset()
+	fmt.Fprintf(&w, header, *repo)
+	fmt.Fprintf(&w, "From Verif Require Import Spec.FrameUseSpec.\n\n")
+	nfu, nfx := root.frameUseSafe(&w, *repo)
+	writeIfChanged(filepath.Join(*out, "GenFrameUse.v"), w.Bytes())
+	fmt.Printf("go2v: GenFrameUse.v %d frame-use rows, %d hand-over sites\n", nfu, nfx)
+
 	// GenTypedBuf.v, GenMessages.v ...: byte-buffer methods and message codecs (methods.go)
 	emitMethodFiles(all, *repo, *out)
 }
